@@ -289,13 +289,13 @@ theorem Spec.ext' {a b : Spec} (h1 : a.srr = b.srr) (h2 : a.shapes = b.shapes) (
     (h4 : a.cfg = b.cfg) : a = b := by
   cases a; cases b; simp_all
 
-def Layer.addField (n : Name) (l : Layer) (d : Nat) : Layer := { l with fields := l.fields ++ [(n, d)] }
+def Layer.addField (n : Name) (l : Layer) (a : ArrIn) : Layer := { l with fields := l.fields ++ [(n, a.2)] }
 
 def Layer.renamed (m : NameMap) (l : Layer) : Layer :=
   { l with fields := l.fields.map (fun e => (sub m e.1, e.2)) }
 
-theorem addLayers_eq (n : Name) : ∀ (ls : List Layer) (ds : List Nat),
-    addLayers n ls ds = if (∀ l ∈ ls, n ∉ keys l.fields) ∧ ds.length = ls.length
+theorem addLayers_eq (n : Name) : ∀ (ls : List Layer) (ds : List ArrIn),
+    addLayers n ls ds = if (∀ l ∈ ls, n ∉ keys l.fields) ∧ ds.map (·.1) = ls.map (·.shape)
       then some (List.zipWith (Layer.addField n) ls ds) else none := by
   intro ls
   induction ls with
@@ -306,26 +306,41 @@ theorem addLayers_eq (n : Name) : ∀ (ls : List Layer) (ds : List Nat),
     | nil => simp [addLayers]
     | cons d t =>
       simp only [addLayers, Layer.add, ih t]
-      by_cases h1 : n ∈ keys l.fields
-      · have hno : ¬ ((∀ l' ∈ l :: r, n ∉ keys l'.fields) ∧ (d :: t).length = (l :: r).length) :=
-          fun hh => hh.1 l (by simp) h1
-        rw [if_neg hno, if_pos h1]
-      · rw [if_neg h1]
-        by_cases h2 : (∀ l ∈ r, n ∉ keys l.fields) ∧ t.length = r.length
-        · have hyes : (∀ l' ∈ l :: r, n ∉ keys l'.fields) ∧ (d :: t).length = (l :: r).length := by
-            refine ⟨?_, by simpa using h2.2⟩
-            intro l' hl'
-            rcases List.mem_cons.1 hl' with hh | hh
-            · rw [hh]; exact h1
-            · exact h2.1 l' hh
-          rw [if_pos hyes, if_pos h2]
-          simp [Layer.addField]
-        · have hno : ¬ ((∀ l' ∈ l :: r, n ∉ keys l'.fields) ∧ (d :: t).length = (l :: r).length) := by
-            intro hh
-            apply h2
-            refine ⟨fun l hl => hh.1 l (by simp [hl]), ?_⟩
-            simpa using hh.2
-          rw [if_neg hno, if_neg h2]
+      by_cases h0 : d.1 = l.shape
+      · simp only [ne_eq, h0, not_true_eq_false, if_false]
+        by_cases h1 : n ∈ keys l.fields
+        · have hno : ¬ ((∀ l' ∈ l :: r, n ∉ keys l'.fields) ∧
+              (d :: t).map (·.1) = (l :: r).map (·.shape)) :=
+            fun hh => hh.1 l (by simp) h1
+          rw [if_neg hno, if_pos h1]
+        · rw [if_neg h1]
+          by_cases h2 : (∀ l ∈ r, n ∉ keys l.fields) ∧ t.map (·.1) = r.map (·.shape)
+          · have hyes : (∀ l' ∈ l :: r, n ∉ keys l'.fields) ∧
+                (d :: t).map (·.1) = (l :: r).map (·.shape) := by
+              refine ⟨?_, by simp [h0, h2.2]⟩
+              intro l' hl'
+              rcases List.mem_cons.1 hl' with hh | hh
+              · rw [hh]; exact h1
+              · exact h2.1 l' hh
+            rw [if_pos hyes, if_pos h2]
+            simp [Layer.addField]
+          · have hno : ¬ ((∀ l' ∈ l :: r, n ∉ keys l'.fields) ∧
+                (d :: t).map (·.1) = (l :: r).map (·.shape)) := by
+              intro hh
+              apply h2
+              refine ⟨fun l hl => hh.1 l (by simp [hl]), ?_⟩
+              have := hh.2
+              simp only [List.map_cons, List.cons.injEq] at this
+              exact this.2
+            rw [if_neg hno, if_neg h2]
+      · have hno : ¬ ((∀ l' ∈ l :: r, n ∉ keys l'.fields) ∧
+            (d :: t).map (·.1) = (l :: r).map (·.shape)) := by
+          intro hh
+          have := hh.2
+          simp only [List.map_cons, List.cons.injEq] at this
+          exact h0 this.1
+        rw [if_neg hno]
+        simp [h0]
 
 theorem renameLayers_eq (m : NameMap) : ∀ ls : List Layer,
     renameLayers m ls = if (∀ l ∈ ls, ((keys l.fields).map (sub m)).Nodup)
@@ -352,8 +367,8 @@ theorem renameLayers_eq (m : NameMap) : ∀ ls : List Layer,
         fun hh => h1 (hh l (by simp))
       rw [if_neg hno, if_neg h1]
 
-theorem map_zipWith_left {α : Type} (g : Layer → α) (f : Layer → Nat → Layer) :
-    ∀ (ls : List Layer) (ds : List Nat), ds.length = ls.length → (∀ l ∈ ls, ∀ d, g (f l d) = g l) →
+theorem map_zipWith_left {α γ : Type} (g : Layer → α) (f : Layer → γ → Layer) :
+    ∀ (ls : List Layer) (ds : List γ), ds.length = ls.length → (∀ l ∈ ls, ∀ d, g (f l d) = g l) →
       (List.zipWith f ls ds).map g = ls.map g := by
   intro ls
   induction ls with
@@ -366,9 +381,9 @@ theorem map_zipWith_left {α : Type} (g : Layer → α) (f : Layer → Nat → L
       simp only [List.zipWith_cons_cons, List.map_cons]
       rw [h l (by simp) d, ih t (by simpa using hlen) (fun l hl => h l (by simp [hl]))]
 
-theorem map_zipWith_right (g : Layer → Nat) (f : Layer → Nat → Layer) :
-    ∀ (ls : List Layer) (ds : List Nat), ds.length = ls.length → (∀ l ∈ ls, ∀ d, g (f l d) = d) →
-      (List.zipWith f ls ds).map g = ds := by
+theorem map_zipWith_right {α γ : Type} (g : Layer → α) (k : γ → α) (f : Layer → γ → Layer) :
+    ∀ (ls : List Layer) (ds : List γ), ds.length = ls.length → (∀ l ∈ ls, ∀ d, g (f l d) = k d) →
+      (List.zipWith f ls ds).map g = ds.map k := by
   intro ls
   induction ls with
   | nil => intro ds hlen _; cases ds <;> simp at hlen ⊢
@@ -380,7 +395,7 @@ theorem map_zipWith_right (g : Layer → Nat) (f : Layer → Nat → Layer) :
       simp only [List.zipWith_cons_cons, List.map_cons]
       rw [h l (by simp) d, ih t (by simpa using hlen) (fun l hl => h l (by simp [hl]))]
 
-theorem elementsOf_zipWith (n : Name) (ls : List Layer) (ds : List Nat) (hne : ls ≠ [])
+theorem elementsOf_zipWith (n : Name) (ls : List Layer) (ds : List ArrIn) (hne : ls ≠ [])
     (hlen : ds.length = ls.length) :
     elementsOf (List.zipWith (Layer.addField n) ls ds) = elementsOf ls ++ [n] := by
   cases ls with
@@ -389,6 +404,11 @@ theorem elementsOf_zipWith (n : Name) (ls : List Layer) (ds : List Nat) (hne : l
     cases ds with
     | nil => simp at hlen
     | cons d t => simp [elementsOf, Layer.addField]
+
+theorem shapes_length {ds : List ArrIn} {ls : List Layer} (h : ds.map (·.1) = ls.map (·.shape)) :
+    ds.length = ls.length := by
+  have := congrArg List.length h
+  simpa using this
 
 theorem elementsOf_map_drop (ns : List Name) (ls : List Layer) :
     elementsOf (ls.map (·.drop ns)) = (elementsOf ls).filter (fun k => decide (k ∉ ns)) := by
@@ -430,15 +450,16 @@ theorem Inv.all_layers_iff {s : State} (h : Inv s) (P : List Name → Prop) :
 
 /-! ## the operations refine the dictionary operations -/
 
-theorem add_refines {s : State} (h : Inv s) (n : Name) (ds : List Nat) (c : Nat) :
+theorem add_refines {s : State} (h : Inv s) (n : Name) (ds : List ArrIn) (c : Nat) :
     (add s n ds c).map abs = (abs s).add n ds c := by
   unfold add Spec.add
   rw [addLayers_eq]
-  have hc : ((∀ l ∈ s.layers, n ∉ keys l.fields) ∧ ds.length = s.layers.length) ↔
-      (n ∉ keys (abs s).map ∧ ds.length = (abs s).shapes.length) := by
-    rw [h.all_layers_iff (fun k => n ∉ k)]; simp
-  by_cases hcond : (∀ l ∈ s.layers, n ∉ keys l.fields) ∧ ds.length = s.layers.length
+  have hc : ((∀ l ∈ s.layers, n ∉ keys l.fields) ∧ ds.map (·.1) = s.layers.map (·.shape)) ↔
+      (n ∉ keys (abs s).map ∧ ds.map (·.1) = (abs s).shapes) := by
+    rw [h.all_layers_iff (fun k => n ∉ k), abs_map_keys]; rfl
+  by_cases hcond : (∀ l ∈ s.layers, n ∉ keys l.fields) ∧ ds.map (·.1) = s.layers.map (·.shape)
   · rw [if_pos hcond, if_pos (hc.1 hcond)]
+    have hlen : ds.length = s.layers.length := shapes_length hcond.2
     simp only [Option.map_some]
     congr 1
     have hn : n ∉ s.elements := (h.all_layers_iff (fun k => n ∉ k)).1 hcond.1
@@ -446,9 +467,9 @@ theorem add_refines {s : State} (h : Inv s) (n : Name) (ds : List Nat) (c : Nat)
     apply Spec.ext'
     · rfl
     · simp only [abs]
-      exact map_zipWith_left (·.shape) (Layer.addField n) s.layers ds hcond.2 (fun _ _ _ => rfl)
+      exact map_zipWith_left (·.shape) (Layer.addField n) s.layers ds hlen (fun _ _ _ => rfl)
     · simp only [abs, State.elements]
-      rw [elementsOf_zipWith n s.layers ds h.1 hcond.2, List.map_append]
+      rw [elementsOf_zipWith n s.layers ds h.1 hlen, List.map_append]
       congr 1
       · apply List.map_congr_left
         intro k hk
@@ -456,7 +477,7 @@ theorem add_refines {s : State} (h : Inv s) (n : Name) (ds : List Nat) (c : Nat)
         congr 2
         · -- data of the old elements
           unfold dataIn
-          apply map_zipWith_left _ _ _ _ hcond.2
+          apply map_zipWith_left _ _ _ _ hlen
           intro l hl d
           have : k ∈ keys l.fields := by rw [h.layer_keys hl]; exact hk
           simp [Layer.addField, get?_append_left _ this]
@@ -464,7 +485,7 @@ theorem add_refines {s : State} (h : Inv s) (n : Name) (ds : List Nat) (c : Nat)
       · simp only [List.map_cons, List.map_nil, List.cons.injEq, and_true, Prod.mk.injEq, true_and]
         constructor
         · unfold dataIn
-          apply map_zipWith_right _ _ _ _ hcond.2
+          apply map_zipWith_right _ (·.2) _ _ _ hlen
           intro l hl d
           have : n ∉ keys l.fields := hcond.1 l hl
           simp [Layer.addField, get?_append_right _ this, get?_cons]
@@ -550,13 +571,13 @@ theorem rename_refines {s : State} (h : Inv s) (m : NameMap) :
 
 /-! ## shape of a successful operation's result -/
 
-theorem add_eq_some {s s' : State} (h : Inv s) {n : Name} {ds : List Nat} {c : Nat}
+theorem add_eq_some {s s' : State} (h : Inv s) {n : Name} {ds : List ArrIn} {c : Nat}
     (hs : add s n ds c = some s') :
-    n ∉ s.elements ∧ ds.length = s.layers.length ∧
+    n ∉ s.elements ∧ ds.map (·.1) = s.layers.map (·.shape) ∧
       s' = { s with layers := List.zipWith (Layer.addField n) s.layers ds, cal := s.cal ++ [(n, c)] } := by
   unfold add at hs
   rw [addLayers_eq] at hs
-  by_cases hcond : (∀ l ∈ s.layers, n ∉ keys l.fields) ∧ ds.length = s.layers.length
+  by_cases hcond : (∀ l ∈ s.layers, n ∉ keys l.fields) ∧ ds.map (·.1) = s.layers.map (·.shape)
   · rw [if_pos hcond] at hs
     have hn : n ∉ s.elements := (h.all_layers_iff (fun k => n ∉ k)).1 hcond.1
     have hncal : n ∉ keys s.cal := fun hh => hn ((h.cal_iff n).1 hh)
@@ -601,7 +622,7 @@ theorem rename_eq_some {s s' : State} (h : Inv s) {m : NameMap} (hs : rename s m
 
 /-! ## the invariant is kept -/
 
-theorem mem_zipWith_addField {n : Name} : ∀ (ls : List Layer) (ds : List Nat) (l' : Layer),
+theorem mem_zipWith_addField {n : Name} : ∀ (ls : List Layer) (ds : List ArrIn) (l' : Layer),
     l' ∈ List.zipWith (Layer.addField n) ls ds → ∃ l ∈ ls, ∃ d, l' = Layer.addField n l d := by
   intro ls
   induction ls with
@@ -617,9 +638,10 @@ theorem mem_zipWith_addField {n : Name} : ∀ (ls : List Layer) (ds : List Nat) 
       · obtain ⟨l0, hl0, d0, hd0⟩ := ih t l' h
         exact ⟨l0, by simp [hl0], d0, hd0⟩
 
-theorem add_inv {s s' : State} (h : Inv s) {n : Name} {ds : List Nat} {c : Nat}
+theorem add_inv {s s' : State} (h : Inv s) {n : Name} {ds : List ArrIn} {c : Nat}
     (hs : add s n ds c = some s') : Inv s' := by
-  obtain ⟨hn, hlen, rfl⟩ := add_eq_some h hs
+  obtain ⟨hn, hsh, rfl⟩ := add_eq_some h hs
+  have hlen : ds.length = s.layers.length := shapes_length hsh
   have hel : elementsOf (List.zipWith (Layer.addField n) s.layers ds) = s.elements ++ [n] :=
     elementsOf_zipWith n s.layers ds h.1 hlen
   refine ⟨?_, ?_, ?_, ?_, ?_⟩
@@ -998,5 +1020,72 @@ theorem readAll_items (layer : Nat) (c : Bool) : ∀ (mp : List (Name × Entry))
           exact ⟨e, by simp, hd, rfl, rfl⟩
         · obtain ⟨e', he', h1, h2, h3⟩ := ih out' hr item hi
           exact ⟨e', by simp [he'], h1, h2, h3⟩
+
+/-! ## the constructor keeps every key it is given -/
+
+theorem mem_keys_dictSet (d : Dict) (k : Name) (v : Nat) (x : Name) :
+    x ∈ keys (dictSet d k v) ↔ x ∈ keys d ∨ x = k := by
+  by_cases hk : k ∈ keys d
+  · rw [keys_dictSet_old v hk]
+    constructor
+    · exact Or.inl
+    · rintro (h | h)
+      · exact h
+      · exact h ▸ hk
+  · rw [dictSet_new v hk]
+    simp
+
+theorem mem_keys_foldl_update (g : Dict) : ∀ (d : Dict) (x : Name),
+    x ∈ keys (g.foldl (fun acc e => dictSet acc e.1 e.2) d) ↔ x ∈ keys g ∨ x ∈ keys d := by
+  induction g with
+  | nil => intro d x; simp
+  | cons e r ih =>
+    intro d x
+    simp only [List.foldl_cons, ih, mem_keys_dictSet, keys_cons, List.mem_cons]
+    constructor
+    · rintro (h | h | h)
+      · exact Or.inl (Or.inr h)
+      · exact Or.inr h
+      · exact Or.inl (Or.inl h)
+    · rintro ((h | h) | h)
+      · exact Or.inr (Or.inr h)
+      · exact Or.inl h
+      · exact Or.inr (Or.inl h)
+
+/-- the keys of the calibration dict of a new laser: the elements and every key of the given dict -/
+theorem mem_keys_initCal (el : List Name) (given : Option Dict) (x : Name) :
+    x ∈ keys (initCal el given) ↔ x ∈ el ∨ ∃ g, given = some g ∧ x ∈ keys g := by
+  have hd0 : ∀ (l : List Name) (d : Dict), x ∈ keys (l.foldl (fun acc n => dictSet acc n 0) d) ↔ x ∈ l ∨ x ∈ keys d := by
+    intro l
+    induction l with
+    | nil => intro d; simp
+    | cons a r ih =>
+      intro d
+      simp only [List.foldl_cons, ih, mem_keys_dictSet, List.mem_cons]
+      constructor
+      · rintro (h | h | h)
+        · exact Or.inl (Or.inr h)
+        · exact Or.inr h
+        · exact Or.inl (Or.inl h)
+      · rintro ((h | h) | h)
+        · exact Or.inr (Or.inr h)
+        · exact Or.inl h
+        · exact Or.inr (Or.inl h)
+  unfold initCal
+  cases given with
+  | none => simp [hd0]
+  | some g =>
+    simp only [mem_keys_foldl_update, hd0, keys_nil, List.not_mem_nil, or_false, Option.some.injEq, exists_eq_left']
+    exact Or.comm
+
+theorem mkState_inv_iff {srr : Bool} {ls : List Layer} {given : Option Dict} (cfg : Nat) (hl : LayersOK ls)
+    (hnd : ∀ g, given = some g → (keys g).Nodup) : Inv (mkState srr ls given cfg) ↔ GivenOK ls given := by
+  constructor
+  · intro h g hg
+    refine ⟨hnd g hg, fun k hk => ?_⟩
+    have : k ∈ keys (mkState srr ls given cfg).cal :=
+      (mem_keys_initCal (elementsOf ls) given k).2 (Or.inr ⟨g, hg, hk⟩)
+    exact (h.cal_iff k).1 this
+  · exact mkState_inv cfg hl
 
 end Pew.LaserEdit
